@@ -69,7 +69,8 @@ def fault_tree(kind, rng, desc, b):
     bk = desc['books'][b]['name']
     arg = ['lit', float(rng.randint(1, 9))]
     if kind == 'unknown-fn':
-        nm = rng.choice(('FOOBAR', 'MYUDF', 'Not.A.Function', 'zzz_1'))
+        nm = rng.choice(('FOOBAR', 'MYUDF', 'Not.A.Function', 'zzz_1', '\u00dcBER',
+                         'Gr\u00f6\u00dfe', '\u0416\u0444'))
         return ['call', nm, [arg]], NAME_ONLY
     if kind == 'unknown-fn-nested':
         return ['bin', '+', ['call', 'SUM', [['call', 'NOSUCHFN', [arg, arg]], arg]],
@@ -82,7 +83,7 @@ def fault_tree(kind, rng, desc, b):
         nm = rng.choice(('XSUM', 'NMAX', 'LMIN', 'FSUM', '_SUM', 'XXMAX', '.COUNT'))
         return ['call', '_xlfn.' + nm, [arg, arg]], NAME_ONLY
     if kind == 'undefined-name':
-        nm = rng.choice(('NoSuchName', 'undefined_1', 'Rate2'))
+        nm = rng.choice(('NoSuchName', 'undefined_1', 'Rate2', 'TRUE_FLAG', 'False_1'))
         if rng.random() < 0.5:
             return ['raw', nm, "'[%s]'!%s" % (bk, nm)], REF_OR_NAME
         return ['bin', '*', ['raw', nm, "'[%s]'!%s" % (bk, nm)], ['lit', 2.0]], REF_OR_NAME
@@ -107,6 +108,10 @@ def fault_tree(kind, rng, desc, b):
         # that does not exist; [2] (used by the bystander cells) is healthy
         return ['raw', '[1]Sheet1!A1', None], REF_OR_NAME
     if kind == 'ref-literal':
+        if rng.random() < 0.5:
+            # what Excel writes for cells of a deleted sheet
+            t = rng.choice(('#REF!A1', '#REF!$B$2', '#REF!A1:B2', '#ref!c3'))
+            return ['bin', '+', ['raw', t, t], arg], {'#REF!'}
         return ['bin', '+', ['err', '#REF!'], arg], {'#REF!'}
     if kind == 'ref-literal-prefixed':
         # what Excel leaves behind when the referenced cells were deleted
@@ -130,6 +135,9 @@ def fault_tree(kind, rng, desc, b):
             desc['names'][nm] = ['val', b, ['raw', full, full]]
             return ['call', 'SUM', [['name', nm]]], ANY_ERROR
         return ['call', 'SUM', [['raw', full, full]]], ANY_ERROR
+    if kind == 'ref-literal-arg' and rng.random() < 0.5:
+        t = rng.choice(('#REF!A1:B2', '#REF!$A$1'))
+        return ['call', 'SUM', [['raw', t, t], arg]], {'#REF!'}
     if kind == 'ref-literal-arg':
         return ['call', 'SUM', [['err', '#REF!'], arg]], {'#REF!'}
     if kind == 'missing-sheet':
